@@ -635,19 +635,20 @@ impl CanonicalizeContext {
 				"munderover" | "msubsup" => if n_children != 3 {
 					bail!("{} should have 3 children:\n{}", element_name, mml_to_string(&mathml));
 				},
-				"mmultiscripts" => {
-					let has_prescripts = mathml.children().iter()
-							.any(|&child| name(&as_element(child)) == "mprescripts");
-					if has_prescripts ^ (n_children % 2 == 0) {
-						bail!("{} has the wrong number of children:\n{}", element_name, mml_to_string(&mathml));
-					}
-				},
 				"mlongdiv" => if n_children < 3 {
 					bail!("{} should have at least 3 children:\n{}", element_name, mml_to_string(&mathml));
 				},
 				_ => if n_children != 2 {
 					bail!("{} should have 2 children:\n{}", element_name, mml_to_string(&mathml));
 				},
+			}
+		}
+		if element_name == "mmultiscripts" {
+			// base followed by pairs of scripts, optionally mprescripts followed by more pairs
+			let has_prescripts = mathml.children().iter()
+					.any(|&child| child.element().is_some() && name(&as_element(child)) == "mprescripts");
+			if has_prescripts ^ (n_children % 2 == 0) {
+				bail!("{} has the wrong number of children:\n{}", element_name, mml_to_string(&mathml));
 			}
 		}
 		let children = mathml.children();
